@@ -155,11 +155,7 @@ func (t *Translator) convertSingleMessage(msg AnthropicMessage) ([]map[string]in
 
 	// user msgs can have text + tool results, assistant msgs have text + tool uses
 	if msg.Role == "user" {
-		userMsg, toolMsgs := t.convertUserMessage(contentBlocks)
-		if userMsg != nil {
-			result = append(result, userMsg)
-		}
-		result = append(result, toolMsgs...)
+		result = append(result, t.convertUserMessage(contentBlocks)...)
 	} else if msg.Role == "assistant" {
 		assistantMsg := t.convertAssistantMessage(contentBlocks)
 		if assistantMsg != nil {
@@ -170,10 +166,23 @@ func (t *Translator) convertSingleMessage(msg AnthropicMessage) ([]map[string]in
 	return result, nil
 }
 
-// split user message into text + tool results (openai needs tool results as separate messages)
-func (t *Translator) convertUserMessage(blocks []interface{}) (map[string]interface{}, []map[string]interface{}) {
+// split user message into text + tool results (openai needs tool results as separate messages).
+// Messages are emitted in the order of the blocks: a tool_result that precedes text (the order
+// Anthropic mandates for a turn answering tool calls) must stay ahead of it, otherwise the
+// tool message would no longer follow the assistant's tool_calls.
+func (t *Translator) convertUserMessage(blocks []interface{}) []map[string]interface{} {
+	var result []map[string]interface{}
 	var textParts []string
-	var toolResults []map[string]interface{}
+
+	flushText := func() {
+		if len(textParts) > 0 {
+			result = append(result, map[string]interface{}{
+				"role":    "user",
+				"content": strings.Join(textParts, ""),
+			})
+			textParts = nil
+		}
+	}
 
 	for _, block := range blocks {
 		blockMap, ok := block.(map[string]interface{})
@@ -201,7 +210,8 @@ func (t *Translator) convertUserMessage(blocks []interface{}) (map[string]interf
 				}
 			}
 
-			toolResults = append(toolResults, map[string]interface{}{
+			flushText()
+			result = append(result, map[string]interface{}{
 				"role":         "tool",
 				"tool_call_id": toolUseID,
 				"content":      content,
@@ -212,15 +222,8 @@ func (t *Translator) convertUserMessage(blocks []interface{}) (map[string]interf
 		}
 	}
 
-	var userMsg map[string]interface{}
-	if len(textParts) > 0 {
-		userMsg = map[string]interface{}{
-			"role":    "user",
-			"content": strings.Join(textParts, ""),
-		}
-	}
-
-	return userMsg, toolResults
+	flushText()
+	return result
 }
 
 // combine text + tool uses into single openai message
